@@ -52,6 +52,30 @@ with atl_a (a : alt) : alt :=
 Example atl_text : show_a (atl_a (AOne (BQ [120] 97 (QBr [51] BrOpen) true (BEnd [121]))))%N = [120; 97; 97; 97; 97; 42; 63; 121]%N.
 Proof. reflexivity. Qed.
 
+(* c{n,m} with n < m = n copies of c followed by m-n copies of c? *)
+Fixpoint opts (c : N) (rel : bool) (d : nat) (b : branch) : branch :=
+  match d with O => b | S d' => BQ [] c QOpt rel (opts c rel d' b) end.
+Fixpoint bnd_b (b : branch) : branch :=
+  match b with
+  | BEnd cs => BEnd cs
+  | BGrp cs cap a b' => BGrp cs cap (bnd_a a) (bnd_b b')
+  | BQ cs c (QBr ds (BrTo d2)) rel b' =>
+      if (dec ds <? dec d2)%N
+      then BQ (cs ++ repeat c (N.to_nat (dec ds))) c QOpt rel (opts c rel (N.to_nat (dec d2 - dec ds) - 1) (bnd_b b'))
+      else BQ cs c (QBr ds (BrTo d2)) rel (bnd_b b')
+  | BQ cs c k rel b' => BQ cs c k rel (bnd_b b')
+  | BAn cs eol b' => BAn cs eol (bnd_b b')
+  end
+with bnd_a (a : alt) : alt :=
+  match a with
+  | AOne b => AOne (bnd_b b)
+  | ACons b a' => ACons (bnd_b b) (bnd_a a')
+  end.
+
+Example bnd_text : show_a (bnd_a (AOne (BQ [120] 97 (QBr [50] (BrTo [52])) false (BEnd [121]))))%N
+                   = [120; 97; 97; 97; 63; 97; 63; 121]%N.
+Proof. reflexivity. Qed.
+
 Example plus_text : show_a (plus_a (AOne (BQ [120] 97 QPlus false (BEnd [121]))))%N = [120; 97; 97; 42; 121]%N.
 Proof. reflexivity. Qed.
 Example opt_text : show_a (opt_a (AOne (BQ [120] 97 QOpt false (BEnd [121]))))%N = [120; 40; 97; 124; 41; 121]%N.
@@ -107,6 +131,29 @@ Proof.
   - intros cs eol b IHb H. cbn [atl_b ok_b] in *. apply andb_true_iff in H as [H Hb]. rewrite H, (IHb Hb). reflexivity.
   - intros b IHb H. exact (IHb H).
   - intros b IHb a IHa H. cbn [atl_a ok_a] in *. apply andb_true_iff in H as [H1 H2]. rewrite (IHb H1), (IHa H2). reflexivity.
+Qed.
+
+Lemma opts_ok xpath c rel d b : ordinary c = true -> negb rel || xpath = true -> ok_b xpath b = true ->
+  ok_b xpath (opts c rel d b) = true.
+Proof.
+  intros Hc Hr Hb. induction d as [|d IH]; [exact Hb|]. cbn [opts ok_b forallb okq]. rewrite Hc, Hr, IH. reflexivity.
+Qed.
+Lemma bnd_ok xpath : (forall b, ok_b xpath b = true -> ok_b xpath (bnd_b b) = true)
+                     /\ (forall a, ok_a xpath a = true -> ok_a xpath (bnd_a a) = true).
+Proof.
+  apply branch_alt_ind.
+  - intros cs H. exact H.
+  - intros cs cap a IHa b IHb H. cbn [bnd_b ok_b] in *. apply andb_true_iff in H as [H Hb]. apply andb_true_iff in H as [H Ha].
+    rewrite H, (IHa Ha), (IHb Hb). reflexivity.
+  - intros cs c k rel b IHb H. cbn [ok_b] in H. apply andb_true_iff in H as [H Hb]. apply andb_true_iff in H as [H Hk].
+    apply andb_true_iff in H as [H Hr]. apply andb_true_iff in H as [Hcs Hc].
+    destruct k as [| | |ds [| |d2]]; cbn [bnd_b]; try (cbn [ok_b]; rewrite ?Hcs, ?Hc, ?Hr, ?Hk, ?(IHb Hb); reflexivity).
+    destruct (dec ds <? dec d2)%N.
+    + cbn [ok_b okq]. rewrite (forallb_app_rep cs c _ Hcs Hc), Hc, Hr, (opts_ok xpath c rel _ _ Hc Hr (IHb Hb)). reflexivity.
+    + cbn [ok_b]. rewrite Hcs, Hc, Hr, Hk, (IHb Hb). reflexivity.
+  - intros cs eol b IHb H. cbn [bnd_b ok_b] in *. apply andb_true_iff in H as [H Hb]. rewrite H, (IHb Hb). reflexivity.
+  - intros b IHb H. exact (IHb H).
+  - intros b IHb a IHa H. cbn [bnd_a ok_a] in *. apply andb_true_iff in H as [H1 H2]. rewrite (IHb H1), (IHa H2). reflexivity.
 Qed.
 
 Section Laws.
@@ -194,6 +241,45 @@ Proof.
   cbn [seq_reach]. split.
   - intros (k & Hk & q' & Hq & ->). exists k. split; [apply Run; exact Hk|exact Hq].
   - intros (k & Hk & Hq). exists k. split; [apply Run; exact Hk|]. exists q. split; [exact Hq|reflexivity].
+Qed.
+
+Lemma wf_seq_all rs : Forall quant_wf rs -> quant_wf (RSeq rs).
+Proof. induction 1 as [|x t Hx Ht IH]; [exact I|]. change (quant_wf x /\ quant_wf (RSeq t)). split; assumption. Qed.
+Lemma wf_opts c g k : quant_wf (RSeq (repeat (RQuant (RChar c) 0 (Some 1%N) g) k)).
+Proof.
+  apply wf_seq_all. induction k as [|k IH]; cbn [repeat]; constructor; [|exact IH]. cbn [quant_wf]. split; [exact I|lia].
+Qed.
+
+(* a chain of d optional characters, then b *)
+Lemma opts_D c rel d : forall b p q, p <= n ->
+  (In q (Db input ci multi (opts c rel d b) p)
+   <-> exists k, seq_reach fl input (repeat (RQuant (RChar c) 0 (Some 1%N) (negb rel)) d) p k /\ In q (Db input ci multi b k)).
+Proof.
+  induction d as [|d IH]; intros b p q Hp; cbn [opts repeat seq_reach].
+  - split; [intros H; exists p; auto|intros (k & -> & H); exact H].
+  - cbn [Db]. rewrite (lit_nil input ci p Hp). cbn [flat_map]. rewrite app_nil_r, in_flat_map. split.
+    + intros (k & Hk & H). assert (k <= n) by (exact (Dq_le input ci multi c QOpt rel p k eq_refl Hp Hk)).
+      apply IH in H; [|assumption]. destruct H as (k2 & R & H). exists k2. split; [|exact H]. exists k. split; [exact Hk|exact R].
+    + intros (k2 & (k & Hk & R) & H). exists k. split; [exact Hk|].
+      assert (k <= n) by (exact (Dq_le input ci multi c QOpt rel p k eq_refl Hp Hk)).
+      apply IH; [assumption|]. exists k2. auto.
+Qed.
+
+(* c{n,m}, n < m *)
+Lemma bnd_step c ds d2 rel m q : (dec ds < dec d2)%N -> m <= n ->
+  (In q (Dq input ci multi c (QBr ds (BrTo d2)) rel m)
+   <-> exists k, In k (lit input ci (repeat c (N.to_nat (dec ds))) m)
+                 /\ seq_reach fl input (repeat (RQuant (RChar c) 0 (Some 1%N) (negb rel)) (N.to_nat (dec d2 - dec ds))) k q).
+Proof.
+  intros Hlt Hm. unfold Dq. cbn [qmin qmaxo]. fold fl.
+  set (k0 := N.to_nat (dec ds)). set (d := N.to_nat (dec d2 - dec ds)).
+  replace (dec d2) with (N.of_nat (k0 + d)) by (subst k0 d; lia).
+  replace (dec ds) with (N.of_nat k0) by (subst k0; apply N2Nat.id).
+  pose proof (law_bounded fl input (RChar c) k0 d (negb rel) I m q Hm) as L. rewrite L.
+  rewrite ends_seq, seq_reach_app.
+  assert (Run : forall k, seq_reach fl input (repeat (RChar c) k0) m k <-> In k (lit input ci (repeat c k0) m)).
+  { intros k. rewrite <- (SE_run' (repeat c k0) m k Hm), map_rep. symmetry. apply (ends_seq fl input). }
+  split; intros (k & Hk & R); exists k; (split; [apply Run; exact Hk|exact R]).
 Qed.
 
 Lemma flat_map_eqv {A} (f g : A -> list nat) (l1 l2 : list A) q :
@@ -306,6 +392,61 @@ Proof.
     cbn [atl_a Da]. rewrite !in_app_iff, (IHb Okb p q Hp), (IHa Oka p q Hp). reflexivity.
 Qed.
 
+Theorem bnd_D xpath :
+     (forall b, ok_b xpath b = true -> forall p q, p <= n -> (In q (Db input ci multi (bnd_b b) p) <-> In q (Db input ci multi b p)))
+  /\ (forall a, ok_a xpath a = true -> forall p q, p <= n -> (In q (Da input ci multi (bnd_a a) p) <-> In q (Da input ci multi a p))).
+Proof.
+  apply branch_alt_ind.
+  - intros cs _ p q Hp. reflexivity.
+  - intros cs cap a IHa b IHb Hok p q Hp. cbn [ok_b] in Hok. apply andb_true_iff in Hok as [Hok Okb].
+    apply andb_true_iff in Hok as [_ Oka]. cbn [bnd_b Db].
+    apply flat_map_eqv.
+    + intros x. apply flat_map_eqv; [reflexivity|]. intros k Hk y. apply (IHa Oka). apply lit_le in Hk. tauto.
+    + intros x Hx y. apply (IHb Okb). apply in_flat_map in Hx as (k & Hk & Hx). apply lit_le in Hk.
+      eapply (proj2 (D_le input ci multi xpath)); [apply (proj2 (bnd_ok xpath)); exact Oka| |exact Hx]. tauto.
+  - intros cs c k rel b IHb Hok p q Hp. cbn [ok_b] in Hok. apply andb_true_iff in Hok as [Hok Okb].
+    apply andb_true_iff in Hok as [_ Hkq].
+    assert (Same : forall k0, okq k0 = true -> In q (Db input ci multi (BQ cs c k0 rel (bnd_b b)) p) <-> In q (Db input ci multi (BQ cs c k0 rel b) p)).
+    { intros k0 Hk0q. cbn [Db]. apply flat_map_eqv; [reflexivity|]. intros x Hx y. apply (IHb Okb).
+      apply in_flat_map in Hx as (k1 & Hk1 & Hx). apply lit_le in Hk1. eapply (Dq_le input ci multi); [exact Hk0q| |exact Hx]. tauto. }
+    destruct k as [| | |ds [| |d2]]; cbn [bnd_b]; try (apply Same; exact Hkq).
+    destruct (dec ds <? dec d2)%N eqn:Hlt; [|apply Same; exact Hkq]. apply N.ltb_lt in Hlt.
+    (* {n,m}, n < m *)
+    set (d := N.to_nat (dec d2 - dec ds)). assert (Hd : d = S (d - 1)) by (subst d; lia).
+    cbn [Db]. rewrite !in_flat_map. split.
+    + intros (k2 & Hk2 & H). apply in_flat_map in Hk2 as (k1 & Hk1 & Hk2).
+      apply (lit_app2 cs _ p k1 Hp) in Hk1. destruct Hk1 as (k0 & Hk0 & Hk1).
+      assert (L0 : k0 <= n) by (apply lit_le in Hk0; tauto). assert (L1 : k1 <= n) by (apply lit_le in Hk1; tauto).
+      assert (L2 : k2 <= n) by (exact (Dq_le input ci multi c QOpt rel k1 k2 eq_refl L1 Hk2)).
+      apply opts_D in H; [|exact L2]. destruct H as (k3 & R & H).
+      exists k3. split.
+      * apply in_flat_map. exists k0. split; [exact Hk0|]. apply bnd_step; [exact Hlt|exact L0|].
+        exists k1. split; [exact Hk1|]. fold d. rewrite Hd. cbn [repeat seq_reach]. exists k2. split; [exact Hk2|exact R].
+      * apply (IHb Okb); [|exact H].
+        assert (Wf : quant_wf (RSeq (repeat (RQuant (RChar c) 0 (Some 1%N) (negb rel)) (d - 1)))).
+        { apply wf_opts. }
+        eapply (ends_le fl input _ Wf k2 k3 L2). apply ends_seq. exact R.
+    + intros (k3 & Hk3 & H). apply in_flat_map in Hk3 as (k0 & Hk0 & Hk3).
+      assert (L0 : k0 <= n) by (apply lit_le in Hk0; tauto).
+      apply bnd_step in Hk3; [|exact Hlt|exact L0]. destruct Hk3 as (k1 & Hk1 & R). fold d in R. rewrite Hd in R.
+      cbn [repeat seq_reach] in R. destruct R as (k2 & Hk2 & R).
+      assert (L1 : k1 <= n) by (apply lit_le in Hk1; tauto).
+      assert (L2 : k2 <= n) by (exact (Dq_le input ci multi c QOpt rel k1 k2 eq_refl L1 Hk2)).
+      assert (L3 : k3 <= n).
+      { assert (Wf : quant_wf (RSeq (repeat (RQuant (RChar c) 0 (Some 1%N) (negb rel)) (d - 1)))).
+        { apply wf_opts. }
+        eapply (ends_le fl input _ Wf k2 k3 L2). apply ends_seq. exact R. }
+      exists k2. split.
+      * apply in_flat_map. exists k1. split; [apply (lit_app2 cs _ p k1 Hp); eauto|exact Hk2].
+      * apply opts_D; [exact L2|]. exists k3. split; [exact R|]. apply (IHb Okb); [exact L3|exact H].
+  - intros cs eol b IHb Hok p q Hp. cbn [ok_b] in Hok. apply andb_true_iff in Hok as [_ Okb].
+    cbn [bnd_b Db]. apply flat_map_eqv; [reflexivity|]. intros x Hx y. apply (IHb Okb).
+    apply in_flat_map in Hx as (k1 & Hk1 & Hx). apply lit_le in Hk1. eapply (Dan_le input ci multi); [|exact Hx]. tauto.
+  - intros b IHb Hok p q Hp. exact (IHb Hok p q Hp).
+  - intros b IHb a IHa Hok p q Hp. cbn [ok_a] in Hok. apply andb_true_iff in Hok as [Okb Oka].
+    cbn [bnd_a Da]. rewrite !in_app_iff, (IHb Okb p q Hp), (IHa Oka p q Hp). reflexivity.
+Qed.
+
 Lemma Dmatch_eqv a1 a2 :
   (forall p q, p <= n -> (In q (Da input ci multi a1 p) <-> In q (Da input ci multi a2 p))) ->
   Dmatch input ci multi a1 = Dmatch input ci multi a2.
@@ -385,4 +526,18 @@ Proof.
   apply (rewrite_same_verdict atl_a).
   - intros xpath a0. apply (proj2 (atl_ok xpath)).
   - intros xpath input0 ci multi a0. apply (proj2 (atl_D input0 ci multi xpath)).
+Qed.
+
+(* c{n,m} with n < m and c...cc?...c? (n copies, then m-n optional ones), from the pattern text *)
+Theorem bounded_law_end_to_end fl a input :
+  ok_a (f_xpath fl) a = true -> f_literal fl = false -> f_ws fl = false -> (N.of_nat (length input) < umax)%N ->
+  exists prog prog', compile true fl (show_a a) = Ok prog /\ compile true fl (show_a (bnd_a a)) = Ok prog'
+    /\ match matches prog input 0 st0, matches prog' input 0 st0 with
+       | MTrue _, MTrue _ | MFalse _, MFalse _ => True
+       | _, _ => False
+       end.
+Proof.
+  apply (rewrite_same_verdict bnd_a).
+  - intros xpath a0. apply (proj2 (bnd_ok xpath)).
+  - intros xpath input0 ci multi a0. apply (proj2 (bnd_D input0 ci multi xpath)).
 Qed.
